@@ -18,4 +18,12 @@ let handle (w : string list) : string =
     let d = Acs.delta (n_of_string o) (n_of_string n) in
     let (r, ok) = Acs.apply_delta (n_of_string o) d in
     "DA " ^ hex_of_bytes d ^ " " ^ string_of_n r ^ " " ^ b2s ok
+  | ["PR"; m; x] ->
+    let m = n_of_string m and x = n_of_string x in
+    let e = Acs.effective m x in
+    "PR " ^ String.concat "" (List.map b2s
+      [Topic.is_joiner m; Topic.is_reader m; Topic.is_writer m; Topic.is_presencer m; AcsSitesC05.is_approver m;
+       Topic.is_sharer m; Topic.is_deleter m; Topic.is_owner m; Topic.is_admin m;
+       AcsPredTie.is_zero m; AcsPredTie.is_invalid m; Acs.is_defined m; Acs.better_than m x; Acs.better_equal m x;
+       Topic.is_writer e; Topic.is_reader e; Topic.is_owner e])
   | _ -> "?"
